@@ -716,13 +716,18 @@ def mutations(d, rng):
             cont, idx = blocks[bi]
             inside = set(_leaf_names(cont[idx][3]))
             outside = [l for l in leaves if l not in inside]
-            for cand in (outside[:1] + ['Nowhere'] + sups[:1]):
+            first_inside = leaves.index(next(l for l in leaves if l in inside)) if inside else 0
+            earlier = [l for l in outside if leaves.index(l) < first_inside]
+            later = [l for l in outside if leaves.index(l) > first_inside]
+            cands = ([('earlier-leaf', earlier[-1])] if earlier else []) + ([('later-leaf', later[0])] if later else []) + \
+                    [('undeclared', 'Nowhere')] + [('superstate', x) for x in sups[:1]]
+            for label, cand in cands:
                 m = _copy(d)
                 c2, i2 = list(_all_blocks(m[si][1]))[bi]
                 body = [b for b in c2[i2][3] if b[0] != 'initial']
                 body.insert(rng.randrange(len(body) + 1), ('initial', cand))
                 c2[i2] = (c2[i2][0], c2[i2][1], c2[i2][2], body)
-                out.append(('R6-initial-child-outside', m))
+                out.append((f'R6-initial-child-{label}', m))
     if ei is not None and si is not None:
         leaves = _leaf_names(d[si][1])
         sups = _sup_names(d[si][1])
